@@ -2399,12 +2399,13 @@ StoreRun.op_cliload = _op_cliload
 def _op_bigcreate(self, op):
     import cooler
 
-    n1, n2 = op["nbins"]
-    n = n1 + n2
+    counts = [int(x) for x in op["nbins"]]
+    n = sum(counts)
     b = 10
-    names = ["big1", "big2"]
-    lengths = [n1 * b - 3, n2 * b]
-    edges = [[k * b for k in range(n1)] + [lengths[0]], [k * b for k in range(n2 + 1)]]
+    names = ["big%d" % (k + 1) for k in range(len(counts))]
+    # the first chromosome ends in a short bin, the others are exact multiples of the width
+    lengths = [counts[0] * b - 3] + [c * b for c in counts[1:]]
+    edges = [[k * b for k in range(counts[0])] + [lengths[0]]] + [[k * b for k in range(c + 1)] for c in counts[1:]]
     bm = bins_frame(names, edges)
     i, j = np.triu_indices(n)
     keep = ((i * 7 + j) % op.get("thin", 1)) == 0
